@@ -203,7 +203,7 @@ __CPROVER_ensures(str == NULL ==> slist->elems[slist->len - 1] == NULL)
 __CPROVER_ensures(xv_heap_live == __CPROVER_old(xv_heap_live) + (__CPROVER_old(slist->len) == 0 ? 1 : 0) + (str != NULL ? 1 : 0))
 ;
 
-/* slist_split: str is ANY string of 0..2^20 characters (tls.peer_names values come from the application).  Proved for every such
+/* slist_split: str is ANY string of 0..2^16 characters (tls.peer_names values come from the application).  Proved for every such
  * string and every delimiter: memory safety (every piece handed to append() lies inside the string: append's precondition),
  * the result is a list the caller owns, empty for the empty string, of 1..length+1 elements otherwise.  WHICH pieces: job
  * cert.slist_split_b (bounded, exact). */
@@ -228,21 +228,25 @@ _Static_assert(sizeof(struct get_san_param) == sizeof(struct xv_idx_param) && si
                __builtin_offsetof(struct get_dir_cn_param, target_index) == sizeof(size_t) && __builtin_offsetof(struct get_dir_cn_param, cn) == 2 * sizeof(size_t),
                "struct xv_idx_param (harness/cert/_ghost.h) mirrors get_san_param / get_dir_cn_param of cert.c");
 #define XC_NM_ASSIGNS xv_nm_calls, xv_nm_name, xv_nm_fills, xv_nm_fill_name, xv_nm_buf, xv_nm_fill_len
-#define XC_CN_OK (xv_cn_len >= 0 && xv_cn_len <= XV_ASN1_MAX && XV_LIVE_OK2(xv_heap_live) && XV_LIVE_OK(xv_nm_calls) && XV_LIVE_OK(xv_nm_fills))
+/* the model's ghost constants are consistent: the first NUL of the value is at xv_cn_z (== length: none) */
+#define XC_CN_OK (xv_cn_len >= 0 && xv_cn_len <= XV_ASN1_MAX && xv_cn_z >= 0 && xv_cn_z <= xv_cn_len && (xv_mc < (size_t)xv_cn_z ==> xv_cn_byte != 0) && \
+                  ((xv_mc == (size_t)xv_cn_z && xv_cn_z < xv_cn_len) ==> xv_cn_byte == 0) && XV_LIVE_OK2(xv_heap_live) && XV_LIVE_OK(xv_nm_calls) && XV_LIVE_OK(xv_nm_fills))
 /* the string returned for a name that has a commonName: a block of the caller's holding the xv_cn_len bytes of its value
  * and a terminator (what the bytes are: byte xv_mc is the value's byte xv_mc) */
-#define XC_CN_STRING(r) (__CPROVER_is_fresh((r), (size_t)xv_cn_len + 1) && (r)[xv_cn_len] == 0 && (xv_mc < (size_t)xv_cn_len ==> (r)[xv_mc] == (char)xv_cn_byte))
+#define XC_CN_STRING(r) (__CPROVER_is_fresh((r), (size_t)xv_cn_len + 1) && (r)[xv_cn_len] == 0 && (xv_mc < (size_t)xv_cn_len ==> (r)[xv_mc] == xv_cn_byte))
 
 static char *get_cn(const X509_NAME *x509_name)
 __CPROVER_requires(XC_CN_OK)
 __CPROVER_assigns(xv_heap_live, XC_NM_ASSIGNS)
 /* PO[C10,C14] get_cn.NULL_when_the_name_has_no_common_name */
-__CPROVER_ensures((x509_name == NULL || !xv_cn_present) ==> (__CPROVER_return_value == NULL && xv_heap_live == __CPROVER_old(xv_heap_live) && xv_nm_fills == __CPROVER_old(xv_nm_fills) && \
-                  xv_nm_calls == __CPROVER_old(xv_nm_calls) + 1))
-/* PO[C10,C14,C08] get_cn.owned_terminated_copy_of_the_common_name */
-__CPROVER_ensures((x509_name != NULL && xv_cn_present) ==> (XC_CN_STRING(__CPROVER_return_value) && xv_heap_live == __CPROVER_old(xv_heap_live) + 1))
+__CPROVER_ensures((x509_name == NULL || !xv_cn_present) ==> (__CPROVER_return_value == NULL && xv_nm_fills == __CPROVER_old(xv_nm_fills) && xv_nm_calls == __CPROVER_old(xv_nm_calls) + 1))
+/* PO[C10,C14] get_cn.common_name_without_embedded_nul_is_returned */
+__CPROVER_ensures((x509_name != NULL && xv_cn_present && xv_cn_z == xv_cn_len) ==> __CPROVER_return_value != NULL)
+/* PO[C10,C14,C08] get_cn.owned_terminated_copy_of_the_common_name_or_nothing */
+__CPROVER_ensures(__CPROVER_return_value != NULL ==> (XC_CN_STRING(__CPROVER_return_value) && xv_heap_live == __CPROVER_old(xv_heap_live) + 1 && xv_nm_buf == __CPROVER_return_value))
+__CPROVER_ensures(__CPROVER_return_value == NULL ==> xv_heap_live == __CPROVER_old(xv_heap_live))
 /* PO[C10] get_cn.openssl_is_given_the_whole_block_and_this_name */
-__CPROVER_ensures((x509_name != NULL && xv_cn_present) ==> (xv_nm_fills == __CPROVER_old(xv_nm_fills) + 1 && xv_nm_fill_name == x509_name && xv_nm_buf == __CPROVER_return_value && \
+__CPROVER_ensures((x509_name != NULL && xv_cn_present) ==> (xv_nm_fills == __CPROVER_old(xv_nm_fills) + 1 && xv_nm_fill_name == x509_name && xv_nm_buf != NULL && \
                                                             xv_nm_fill_len == xv_cn_len + 1 && xv_nm_calls == __CPROVER_old(xv_nm_calls) + 2))
 __CPROVER_ensures(xv_nm_name == x509_name)
 #ifdef XC_JOB_GET_CN
@@ -250,7 +254,7 @@ __CPROVER_ensures(xv_nm_name == x509_name)
  * call would hide the certificates it is about)
  * a common name with an embedded NUL ("good.example\0.evil") must not be reported as the C string before the NUL */
 /* PO[C09] get_cn.name_with_embedded_nul_is_not_reported_as_its_prefix */
-__CPROVER_ensures((__CPROVER_return_value != NULL && xv_mc < (size_t)xv_cn_len) ==> __CPROVER_return_value[xv_mc] != 0)
+__CPROVER_ensures(__CPROVER_return_value != NULL ==> (xv_cn_z == xv_cn_len && (xv_mc < (size_t)xv_cn_len ==> __CPROVER_return_value[xv_mc] != 0)))
 #endif
 ;
 
@@ -258,9 +262,12 @@ char *cert_get_subject_field_cn(X509 *cert)
 __CPROVER_requires(cert == XV_CERT && XC_CN_OK && XV_LIVE_OK(xv_subj_calls))
 __CPROVER_assigns(xv_heap_live, XC_NM_ASSIGNS, xv_subj_calls)
 /* PO[C10,C14] cert_get_subject_field_cn.NULL_when_the_subject_has_no_common_name */
-__CPROVER_ensures((xv_subj_null || !xv_cn_present) ==> (__CPROVER_return_value == NULL && xv_heap_live == __CPROVER_old(xv_heap_live)))
-/* PO[C10,C14,C08] cert_get_subject_field_cn.owned_terminated_copy_of_the_subject_common_name */
-__CPROVER_ensures((!xv_subj_null && xv_cn_present) ==> (XC_CN_STRING(__CPROVER_return_value) && xv_heap_live == __CPROVER_old(xv_heap_live) + 1 && xv_nm_fill_name == XV_SUBJ))
+__CPROVER_ensures((xv_subj_null || !xv_cn_present) ==> __CPROVER_return_value == NULL)
+/* PO[C10,C14] cert_get_subject_field_cn.common_name_without_embedded_nul_is_returned */
+__CPROVER_ensures((!xv_subj_null && xv_cn_present && xv_cn_z == xv_cn_len) ==> __CPROVER_return_value != NULL)
+/* PO[C10,C14,C08] cert_get_subject_field_cn.owned_terminated_copy_of_the_subject_common_name_or_nothing */
+__CPROVER_ensures(__CPROVER_return_value != NULL ==> (XC_CN_STRING(__CPROVER_return_value) && xv_heap_live == __CPROVER_old(xv_heap_live) + 1 && xv_nm_fill_name == XV_SUBJ))
+__CPROVER_ensures(__CPROVER_return_value == NULL ==> xv_heap_live == __CPROVER_old(xv_heap_live))
 __CPROVER_ensures(xv_subj_calls == __CPROVER_old(xv_subj_calls) + 1 && (xv_subj_null ? xv_nm_name == NULL : xv_nm_name == XV_SUBJ))
 ;
 
@@ -336,14 +343,16 @@ __CPROVER_ensures(XC_GN_RELEASED && XC_GN_ALL_SEEN)
 ;
 
 char *cert_get_dir_cn(X509 *cert, size_t index)
-__CPROVER_requires(cert == XV_CERT && xv_gn_want == GEN_DIRNAME && XC_GN_ENTRY && xv_cn_len >= 0 && xv_cn_len <= XV_ASN1_MAX)
+__CPROVER_requires(cert == XV_CERT && xv_gn_want == GEN_DIRNAME && XC_GN_ENTRY && XC_CN_OK)
 __CPROVER_requires(index == xv_want_ord && xv_nm_calls == 0 && xv_nm_fills == 0)
 __CPROVER_assigns(XC_GN_ASSIGNS, xv_heap_live, XC_NM_ASSIGNS)
 /* PO[C10,C14] cert_get_dir_cn.common_name_of_the_index_th_directory_name */
-__CPROVER_ensures((index < xv_gn_match && xv_cn_present) ==> (__CPROVER_return_value != NULL && __CPROVER_return_value == xv_nm_buf && xv_nm_fills == 1 && \
+__CPROVER_ensures((index < xv_gn_match && xv_cn_present && xv_cn_z == xv_cn_len) ==> __CPROVER_return_value != NULL)
+__CPROVER_ensures(__CPROVER_return_value != NULL ==> (index < xv_gn_match && xv_cn_present && __CPROVER_return_value == xv_nm_buf && xv_nm_fills == 1 && \
                   xv_nm_fill_name == xv_gn_k_payload && xv_nm_fill_len == xv_cn_len + 1 && xv_heap_live == __CPROVER_old(xv_heap_live) + 1))
 /* PO[C10,C14] cert_get_dir_cn.NULL_beyond_the_last_entry_or_without_common_name */
-__CPROVER_ensures((index >= xv_gn_match || !xv_cn_present) ==> (__CPROVER_return_value == NULL && xv_nm_fills == 0 && xv_heap_live == __CPROVER_old(xv_heap_live)))
+__CPROVER_ensures((index >= xv_gn_match || !xv_cn_present) ==> (__CPROVER_return_value == NULL && xv_nm_fills == 0))
+__CPROVER_ensures(__CPROVER_return_value == NULL ==> xv_heap_live == __CPROVER_old(xv_heap_live))
 /* PO[C08] cert_get_dir_cn.general_names_released_exactly_once */
 __CPROVER_ensures(XC_GN_RELEASED && XC_GN_ALL_SEEN)
 ;
